@@ -110,6 +110,8 @@ var _ table.PitEntry
 //@   modifies verifSends, verifLastFace, verifLastToken, verifSentSet[*], all(table.nameTreePitEntry), all(table.pitCsTreeNode), all(table.PitCsTree), t.deadNonceList.expirationQueue.pq, t.NInInterests, *packet.L3.Interest.HopLimitV, packet.L3.Data, packet.L3.Interest, packet.Raw, packet.Name, all(table.DeadNonceList), t.deadNonceList.list[*], all(table.basePitEntry)
 //@   loop 2 invariant fresh(allowedNexthops) && len(allowedNexthops) <= rangeindex+1 && cap(allowedNexthops) == len(nexthops) && forallIn(0, len(nexthops), func(i int) bool { return nexthops[i] != nil })
 //@   ensures [reject-nonlocal-localhost] old(packet.IncomingFaceID != nil && dispatch.GetFace(*packet.IncomingFaceID) != nil && dispatch.GetFace(*packet.IncomingFaceID).Scope() == defn.NonLocal && specIsLocalhost(packet.L3.Interest.NameV)) ==> t.NInInterests == old(t.NInInterests)
+//@   ensures [hop-limit-zero] old(packet.L3.Interest.HopLimitV != nil && *packet.L3.Interest.HopLimitV == 0) ==> verifSends == old(verifSends) && t.NInInterests == old(t.NInInterests)
+//@   ensures [hop-limit-dec] verifSends != old(verifSends) && old(packet.L3.Interest.HopLimitV) != nil ==> *old(packet.L3.Interest.HopLimitV) == old(*packet.L3.Interest.HopLimitV)-1
 
 //@ func (*Thread).processIncomingData
 //@   requires packet != nil && packet.L3 != nil && packet.L3.Data != nil && packet.L3.Interest == nil && sameSlice(packet.Name, packet.L3.Data.NameV)
